@@ -520,7 +520,7 @@ pub fn run(ctx: &mut Ctx, _args: &Args) {
         "skrifa built without `autohint_shaping` (default-features=false, features=[std]) exactly like fauntlet".into(),
         "static fonts only (any face with an fvar table is skipped); tricky fonts are compared unscaled/unhinted only, as fauntlet lets FreeType ignore hinting flags for them".into(),
         "advance compared when skrifa reports AdjustedMetrics.advance_width (glyf, auto-hinter) against FT glyph metrics horiAdvance".into(),
-        "synthetic fonts: valid by construction for both engines; kept out of the random fonts (and kept visible in the fixed probe font, open known findings): SCALED_COMPONENT_OFFSET with off-diagonal 2x2 terms, SCALED+UNSCALED both set, numberOfContours==0 glyphs with a header handing on metrics or with lsb/xMin != 0, phantom points moved along the axis FreeType does not round, unscaled coordinates (or spans) beyond int16 under the auto-hinter".into(),
+        "synthetic fonts: valid by construction for both engines. Kept out of the random fonts and visible only in the fixed probe font (open known findings): GETINFO selector bit 12 (differs under the light target), INSTCTRL in prep (selector 2 is undone by FreeType's TT_Hint_Glyph, selector 3 differs under the normal target; C03_SYNTH_INSTCTRL=1 re-enables it). The shapes of the first round of findings (SCALED_COMPONENT_OFFSET with 2x2, zero-contour glyphs with a header, phantom point rounding, int16 auto-hinter input) are fixed upstream and generated again".into(),
         "synthetic fonts: auto-hinter comparisons skip glyphs whose |coordinate| (plus shift) leaves the int16 range (FreeType's auto-hinter uses FT_Short arithmetic there); Latin letters map only to stem/bowl-like glyphs (with arbitrary shapes as blue-zone sources 3 unexplained small-size auto-hinter differences were seen in 10 000 fonts); IP is generated only for simple glyphs between reference points that are well apart (otherwise results overflow 32 bits in skrifa but not FreeType's 64-bit FT_Pos)".into(),
     ];
     let fonts = all_fonts();
@@ -812,6 +812,9 @@ fn run_synthetic(ctx: &mut Ctx, stats: &mut Stats, item: &mut usize) {
         ctx.label("synthetic_units_per_em", &format!("{:05}", sf.upem));
         for (k, v) in &sf.features {
             *features.entry(k.clone()).or_default() += *v;
+        }
+        for sel in &sf.round_selectors {
+            ctx.distinct(if *sel < 256 { "synthetic_sround_selectors" } else { "synthetic_s45round_selectors" }, *sel as u64);
         }
         let ppems = debug_sizes.clone().unwrap_or_else(|| if thorough { sf.ppems_thorough.clone() } else { sf.ppems_quick.clone() });
         run_synth_font(ctx, stats, &sf, &ppems, None);
